@@ -385,6 +385,26 @@ func laws(sel int, in, got []int64, law func(lsel int, lin []int64, sig string))
 			law(108, lin, sig)
 		}
 		if o.Code == 13 {
+			// Session.Evict, whatever it returns: invariant, handler ledger = sum over the job's tasks,
+			// an error changed nothing in the session, a success left the task Releasing and reached
+			// the evictor exactly once (law 113, unsigned)
+			lin := []int64{o.A[0], ob.res}
+			lin = append(lin, before...)
+			lin = append(lin, after...)
+			lin = append(lin, int64(len(ob.newEv)))
+			lin = append(lin, ob.newEv...)
+			law(113, lin, "")
+			if ob.res == 1 {
+				// ... and an Evict that returns an error did not reach the evictor.  KNOWN FINDING:
+				// the job lookup comes after cache.Evict; the sig is attached only in that situation
+				sig := ""
+				if _, known := w.Ssn.Jobs[w.Tasks[o.A[0]].Job]; !known && !w.Cache.RefuseEvict[o.A[0]] && len(ob.newEv) == 1 && ob.newEv[0] == o.A[0] {
+					sig = "C07-session-evict-error-after-evictor-call"
+				}
+				law(110, []int64{int64(len(ob.newEv)), 0}, sig)
+			}
+		}
+		if o.Code == 13 {
 			// evictor half of "nothing of an undecided transaction reaches the binder or evictor":
 			// no task Session.Evict hands to the evictor is recorded in an open statement (the
 			// generator never evicts such a task; C07_undecided_reaches_evictor_refuted is the model's witness)
@@ -611,6 +631,70 @@ func gen(rng *vh.Rng, n int, emit func(id string, sel int, in []int64, kind stri
 		}
 		emit(fmt.Sprintf("gang-%d", i), sel, encCase(nodes, jobs, tasks, ops), kind, true, desc)
 	}
+	// directed family: Session.Evict on tasks whose node / job the session may not know
+	for i := 0; i < n/6+2; i++ {
+		r := rng.Fork()
+		nodes, jobs, tasks, ops, desc := genEvict(r)
+		emit(fmt.Sprintf("evict-%d", i), 1, encCase(nodes, jobs, tasks, ops), "evict/unknown-node-or-job", true, desc)
+	}
+}
+
+// genEvict: Session.Evict (the shuffle action's path) on Running / Bound tasks whose node and / or
+// job may be unknown to the session (a pod on a node left out of the snapshot), with and without
+// the cache refusing the eviction
+func genEvict(r *vh.Rng) ([]sched.NodeSpec, []sched.JobSpec, []sched.TaskSpec, []opT, map[string]any) {
+	nn := r.Range(1, 3)
+	nodes := []sched.NodeSpec{}
+	for i := 1; i <= nn; i++ {
+		nodes = append(nodes, sched.NodeSpec{ID: int64(i), Has: true, CPU: 16000, Mem: 64 << 20, Pods: 20, GPU: int64(r.Range(0, 2))})
+	}
+	nj := r.Range(1, 2)
+	jobs := []sched.JobSpec{}
+	for j := 1; j <= nj; j++ {
+		jobs = append(jobs, sched.JobSpec{ID: int64(j), Queue: 1, Min: 1})
+	}
+	nt := r.Range(2, 5)
+	tasks := []sched.TaskSpec{}
+	for t := 1; t <= nt; t++ {
+		tasks = append(tasks, sched.TaskSpec{ID: int64(t), Job: int64(r.Range(1, nj)), Role: 1, CPU: int64(r.Range(1, 6)) * 250, Mem: int64(r.Range(1, 4)) << 19,
+			Status: vh.Pick(r, []int64{sched.SRunning, sched.SRunning, sched.SBound}), Node: int64(r.Range(1, nn))})
+	}
+	ops := []opT{}
+	faults := []string{}
+	if r.Chance(1, 2) {
+		ops = append(ops, opT{Code: 15, A: []int64{int64(r.Range(1, nn))}})
+		faults = append(faults, "drop-node")
+	}
+	if r.Chance(1, 3) {
+		ops = append(ops, opT{Code: 14, A: []int64{int64(r.Range(1, nj))}})
+		faults = append(faults, "drop-job")
+	}
+	if r.Chance(1, 3) {
+		re := []int64{}
+		for t := 1; t <= nt; t++ {
+			if r.Chance(1, 3) {
+				re = append(re, int64(t))
+			}
+		}
+		ops = append(ops, opT{Code: 16, L: [][]int64{{}, {}, re}, B: true})
+		faults = append(faults, "refuse-evict")
+	}
+	order := []int64{}
+	for t := 1; t <= nt; t++ {
+		order = append(order, int64(t))
+	}
+	for i := len(order) - 1; i > 0; i-- {
+		j := r.Intn(i + 1)
+		order[i], order[j] = order[j], order[i]
+	}
+	k := r.Range(1, 3)
+	if k > nt {
+		k = nt
+	}
+	for _, t := range order[:k] {
+		ops = append(ops, opT{Code: 13, A: []int64{t}})
+	}
+	return nodes, jobs, tasks, ops, map[string]any{"tasks": nt, "nodes": nn, "faults": faults, "evictions": k}
 }
 
 // isGang recognises the directed family by its shape: it starts by switching JobReady off and ends
